@@ -39,7 +39,7 @@ impl dyn Resource {
     /// Returns true if the boxed type is the same as `T`
     #[inline]
     pub fn is<T: Resource>(&self) -> bool {
-        TypeId::of::<T>() == self.type_id()
+        crate::world::TypeKey::of::<T>() == self.verif_type_key() // VERIF MODEL: key instead of TypeId
     }
 
     /// Returns some reference to the boxed value if it is of type `T`, or
